@@ -12,7 +12,7 @@ tim = json.load(open(os.path.join(ROOT, "kani", "timings.json")))
 KNOWN_FAIL = {"fam_packed_EExplicit", "fam_vec_EExplicit", "fam_packed_SWithEnum", "fam_vec_SWithEnum", "fam_rt_SWithEnum",
               "fam_packed_SUpperBound", "fam_older_SUpperBound", "fam_rt_SUpperBound", "fam_vec_SUpperBound",
               "mal_vec_bool", "mal_vec_char", "mal_array_bool"}
-NEVER = ("schema_", "failw", "x_")
+NEVER = ("schema_", "x_")
 
 def pick(prefixes, prop, only=None):
     quick, thorough = [], []
@@ -67,7 +67,7 @@ add("C07", ["v_codec", "v_crypto"], ["trunc_"],
     level_text="lemma_prefix (Verus): no strict prefix of an encoding is accepted, generically for the codec impls under contract; Kani: for each container-family type, every cut offset of every saved schema-less file is rejected (symbolic value and cut).",
     level_note="Compressed / encrypted containers: bounded native runs only (real bzip2 / ring).",
     technique="Verus lemma over decoder contracts; Kani truncation harnesses", trusted_base=TB)
-add("C08", ["v_codec", "v_crypto"], ["shortw_", "chunk1_", "chunk3_"],
+add("C08", ["v_codec", "v_crypto"], ["shortw_", "chunk1_", "chunk3_", "flushfail_", "failw"],
     level_text="Every write_*/serialize under Verus contract has the Err-clause old ⊑ new ⊑ old ++ enc for every behaviour of the underlying writer (all failure offsets), io::Error maps to SavefileError::IOError, no panic; Kani: short writes (1 byte/call) and chunked reads (1 and 3 bytes/call) give identical bytes/values on the real container code.",
     level_note="Hard-failure schedules through save_impl and derive output are not decided by Kani (CBMC does not terminate on io::Error paths) and CryptoWriter is outside Verus' subset: both are covered only by bounded native fault-injection runs.",
     technique="Verus error-path postconditions; Kani chunking harnesses", trusted_base=TB)
